@@ -24,7 +24,7 @@ ASSUMPTIONS = [
     "involutive-MCMC form of detailed balance: the step is a deterministic map of (state, auxiliary draws); it must be an involution with unit "
     "Jacobian and the acceptance probability must be min(1, ratio of joint densities) - decided without integrals",
     "exact reals; dof nu concrete with (d+nu)/2 integer, beta on a rational grid (so that every power is a polynomial)",
-    "the reverse-move witness assumes the pCN form    "a run of two iterations is compared with the composition of two one-iteration runs (frozen step sizes), which extends the one-step result to every iteration of a run; K > 1 obligations attach the single walker to a higher-numbered mode with the lower ones empty",
+    "a run of two iterations is compared with the composition of two one-iteration runs (frozen step sizes), which extends the one-step result to every iteration of a run; K > 1 obligations attach the single walker to a higher-numbered mode with the lower ones empty",
     "magnitudes: the Metropolis ratio of the RWM step is checked under a range abstraction of double exp/pow for log-likelihood differences up to 1e4",
     "the reverse-move witness assumes the pCN form u' = mu + sqrt(1-sigma^2)(u-mu) + sigma*sqrt(s)*L z (a re-parameterised but correct kernel would "
     "need a new witness)",
